@@ -1,5 +1,4 @@
 import Eliot.Proofs.SysSlots
-import Eliot.Generated.ActionScope
 /-!
 # C02 — every message is uniquely and contiguously placed by (task_uuid, task_level)
 
@@ -155,11 +154,5 @@ example : let w' := (execB Sys.C04.exEnv none {} exProg).1
 example : let w : World := { acts := [{ uuid := 0, level := [], last := 1 }], nextUuid := 1 }
     ((w.buildLog 0 "m" []).2.get? "task_level" = some (.lvl [2])) ∧ (w.buildLog 0 "m" []).1.slots = [(0, 2)] := by
   decide +kernel
-
-/-- **E6, order part (regenerated from /repo on every run)**: `Action.__exit__` resets the context
-*before* it calls `finish`, so that failure reports about the end message (and tracebacks of a
-raising extractor) take positions in the parent, not after the end message of the action itself —
-the model's `withBlock` does the same, which is what keeps the end message last. -/
-theorem skeleton_E6_order : Generated.actionExit = ["reset", "clear", "finish(exception)"] := by decide
 
 end Sys.C02
